@@ -22,7 +22,8 @@ Example C29_witness_kanidm_hotp_basic :
   digest_gen false Sha512 D6 [0] 0 = DOk 674061.
 Proof. vm_compute. repeat split; reflexivity. Qed.
 
-(* hypotheses of C29_exact_partial are met non-trivially: a usable 32-byte secret, t >= step;
+(* hypotheses of C29_full / C29_verify_is_spec / C29_prefix_exact_short_secret are met
+   non-trivially: a 32-byte secret, t >= step;
    the current code and the previous step's code are accepted, the next step's and the one two
    steps back are not, and current <> previous *)
 Example C29_witness_exact :
@@ -36,14 +37,15 @@ Example C29_witness_exact :
   rfc_totp Sha256 D6 key 30 t <> rfc_totp Sha256 D6 key 30 (t - 30).
 Proof. vm_compute. repeat split; try reflexivity; discriminate. Qed.
 
-(* the refuting input of C29_refuted and of C29_long_secret_refused: 65-byte SHA-1 secret,
-   its own current code, refused by the pinned tree's model, accepted by the repaired one *)
-Example C29_witness_refuted :
+(* the refuting input of C29_prefix_refuted / a non-vacuous instance of
+   C29_prefix_long_secret_refused and C29_fix_is_conservative: 65-byte SHA-1 secret, its own
+   current code, refused by the code before the fix, accepted by the current code *)
+Example C29_witness_prefix_refuted :
   let key := repeat 7 65%nat in
-  key_ok Sha1 key = false /\
+  key_ok Sha1 key = false /\ 0 < 30 /\ 30 <= 59 /\
   verify_gen false true Sha1 D6 key 30 (rfc_totp Sha1 D6 key 30 59) 59 = OBool false /\
-  verify_gen true true Sha1 D6 key 30 (rfc_totp Sha1 D6 key 30 59) 59 = OBool true.
-Proof. vm_compute. repeat split; reflexivity. Qed.
+  verify true Sha1 D6 key 30 (rfc_totp Sha1 D6 key 30 59) 59 = OBool true.
+Proof. vm_compute. repeat split; try reflexivity; discriminate. Qed.
 
 (* boundary behaviour outside the property's hypotheses that the model also transcribes:
    step 0 panics; before the first step the subtraction overflows (panic in a checked build) unless
@@ -55,14 +57,20 @@ Example C29_witness_boundaries :
   verify false Sha1 D6 [1; 2; 3] 30 5 29 = OBool false.
 Proof. vm_compute. repeat split; reflexivity. Qed.
 
-(* agree / pcheck / known on concrete cases: an agreeing accepted case, and the known class *)
+(* agree / pcheck / known on concrete cases: an agreeing case with accepted and refused codes, and
+   a long secret (accepted = agrees and satisfies the property; refused, as before the fix =
+   flagged by both) *)
 Example C29_witness_case :
   let key := hex "000102030405060708090a0b0c0d0e0f101112131415161718191a1b1c1d1e1f" in
-  let c := CV true Sha256 D6 key 30 (rfc_totp Sha256 D6 key 30 1700000019) 1700000019 5 (OBool true) in
+  let t := 1700000019 in
+  let c := CV true Sha256 D6 key 30 t 5
+             [(rfc_totp Sha256 D6 key 30 t, OBool true); (rfc_totp Sha256 D6 key 30 (t - 30), OBool true);
+              (rfc_totp Sha256 D6 key 30 (t + 30), OBool false); (1000000 + rfc_totp Sha256 D6 key 30 t, OBool false)] in
   agree c = true /\ known c = false /\ pcheck c = true.
 Proof. vm_compute. repeat split; reflexivity. Qed.
-Example C29_witness_known_case :
+Example C29_witness_long_secret_case :
   let key := repeat 7 65%nat in
-  let c := CV true Sha1 D6 key 30 (rfc_totp Sha1 D6 key 30 59) 59 0 (OBool false) in
-  agree c = true /\ known c = true /\ pcheck c = false.
+  let c := CV true Sha1 D6 key 30 59 0 [(rfc_totp Sha1 D6 key 30 59, OBool true)] in
+  let c' := CV true Sha1 D6 key 30 59 0 [(rfc_totp Sha1 D6 key 30 59, OBool false)] in
+  agree c = true /\ known c = false /\ pcheck c = true /\ agree c' = false /\ pcheck c' = false.
 Proof. vm_compute. repeat split; reflexivity. Qed.
